@@ -19,9 +19,9 @@ structure ConnObs where
 
 /-- `myTokens` = tokens of this client's requests, `otherTokens` = tokens of all other clients -/
 def P_C13_conn (kind : String) (otherTokens : List String) (o : ConnObs) : Verdict :=
-  if kind == "idle" then
+  if kind == "idle" || kind == "flood" then
     if o.out.isEmpty && o.up.isEmpty then none else some "bytes-for-a-silent-connection"
-  else if o.late then some "connection-delayed-by-another-connection's-unfinished-message"
+  else if o.late then some "connection-delayed-by-another-connection"
   else if o.rawOut then some "unparsable-bytes-on-a-connection"
   else if o.out.any (fun rep => otherTokens.any fun t => mentions t rep) then some "reply-caused-by-another-connection"
   else if o.out != o.refOut then some "replies-differ-from-the-connection's-own-sequential-expectation"
